@@ -59,6 +59,8 @@ def gen_case(run_seed: int, tier: str, index: int = 0) -> dict:
         models.append(
             {
                 "seed": r.randrange(1 << 30),
+                # values used only as node inputs and defined nowhere in the graph (e.g. constants not yet registered)
+                "free_inputs": r.choice([0, 0, 1, 2]),
                 "params": dict(
                     n_nodes=r.choice([1, 2, 4, 6, 10]), n_inputs=r.choice([0, 1, 2, 3]), n_inits=r.choice([0, 1, 2, 4]), n_outputs=r.choice([1, 2]),
                     n_functions=r.choice([0, 1, 2]), depth=r.choice([0, 1, 2]), typed=r.random() < 0.5, name_noise=r.choice([0.2, 0.4, 0.7, 1.0]),
@@ -248,6 +250,19 @@ def run_namefix_on_generated(case: dict, stats: dict):
         rng = random.Random(spec["seed"])
         suffix = "|unsorted-model" if spec["params"].get("unsorted") else ""
         model = modelgen.gen_model(rng, modelgen.Params(**spec["params"]))
+        if spec.get("free_inputs"):
+            frng = random.Random(spec["seed"] ^ 0x5EED)
+            all_nodes = [n for top in [model.graph] + list(model.functions.values()) for n in ir.traversal.RecursiveGraphIterator(top)]
+            names = sorted({v.name for n in all_nodes for v in list(n.inputs) + list(n.outputs) if v is not None and v.name})
+            for k in range(spec["free_inputs"]):
+                cands = [n for n in all_nodes if len(n.inputs) > 0]
+                if not cands:
+                    break
+                n = frng.choice(cands)
+                base = frng.choice(names) if names else "v"
+                nm = frng.choice([base + "_1", base + "_2", "v_1", "v_2", f"free_{k}", base + "_1_1"])
+                n.replace_input_with(frng.randrange(len(n.inputs)), ir.Value(name=nm))
+                inc("namefix_free_input_values")
         w = World()
         w.reg(model)
         before_snap = snapshot.snapshot(w)
@@ -503,6 +518,11 @@ def run_case(case: dict) -> dict:
 def shrink_candidates(case: dict, violation: dict):
     if not case["ops"] and case.get("models"):
         spec = case["models"][0]
+        for val in (0, 1):
+            if spec.get("free_inputs", 0) > val:
+                c = copy.deepcopy(case)
+                c["models"][0]["free_inputs"] = val
+                yield c
         for key, vals in (("n_nodes", [1, 2, 4]), ("n_functions", [0]), ("depth", [0, 1]), ("n_inits", [0, 1]), ("n_inputs", [0, 1]), ("name_noise", [0.2]), ("unsorted", [False]), ("typed", [False])):
             for val in vals:
                 if spec["params"].get(key) != val and (not isinstance(val, (int, float)) or isinstance(val, bool) or val < spec["params"].get(key, 0)):
